@@ -19,7 +19,7 @@ import (
 
 var recBurst = ev.New("C03", "replay-bursts",
 	"rapid (few, large cases): configuration class x a burst of N in 1200..VERIF_C03_BURST_MAX requests built by the real client and accepted by one server in two "+
-		"waves (same window), then thinning traffic (M < N/4 requests accepted 15-45 s later, client clocks 0..30 s ahead), then the clock moves to the "+
+		"waves (same window), at once the first two, a random and the last burst member again (flood: N-1 later acceptances in the same window), then thinning traffic (M < N/4 requests accepted 15-45 s later, client clocks 0..30 s ahead), then the clock moves to the "+
 		"instant the burst's salts run out (+0/1ns/1s/5s) and one more request is accepted (this Add prunes the pool to under a quarter of its peak); then the "+
 		"same bytes again of: the request accepted last before that Add, the first and random ones of the thinning wave, the new one, members of the burst; "+
 		"another accept; the victims again. Same executor and model as replay-history (two synctest bubbles). Non-trivial as there; distinct key = class + N/64 + parameters").
@@ -34,6 +34,7 @@ func envInt(name string, def int) int {
 
 func TestBurstHandshakes(t *testing.T) {
 	maxN := envInt("VERIF_C03_BURST_MAX", 1600)
+	minN := min(envInt("VERIF_C03_BURST_MIN", 1200), maxN)
 	rapid.Check(t, func(rt *rapid.T) {
 		class := drawClass(rt)
 		if class.Prefix == sstcp.PrefixBig {
@@ -41,7 +42,7 @@ func TestBurstHandshakes(t *testing.T) {
 		}
 		p := plan{Class: class, Seed: rapid.Uint64().Draw(rt, "seed"), Start: baseServerAdv}
 		p.Managed = class.NIPSK > 0 && rapid.Bool().Draw(rt, "managed")
-		n := rapid.IntRange(1200, maxN).Draw(rt, "n")
+		n := rapid.IntRange(minN, maxN).Draw(rt, "n")
 		split := rapid.IntRange(1, n-1).Draw(rt, "split")
 		db := at([]time.Duration{0, time.Nanosecond, time.Second, 10 * time.Second}, rapid.IntRange(0, 3).Draw(rt, "burstgap"))
 		d1 := at([]time.Duration{45 * time.Second, 30 * time.Second, 15 * time.Second, 59 * time.Second}, rapid.IntRange(0, 3).Draw(rt, "thin-at"))
@@ -73,6 +74,11 @@ func TestBurstHandshakes(t *testing.T) {
 			present(add(now + skew))
 		}
 		lastBurst := now
+		// flood: the earliest requests of the burst again, right after n-1 / n-2 / ... others were accepted in the same window
+		present(0)
+		present(1)
+		present(pick[3] % n)
+		present(n - 1)
 		adv(p.Start + d1 - now)
 		firstThin := len(p.Reqs)
 		for i := 0; i < m; i++ {
@@ -100,6 +106,9 @@ func TestBurstHandshakes(t *testing.T) {
 			rt.Fatalf("%s | burst N=%d split=%d gap=%v thinning M=%d at +%v skew %v eps=%v", out.violation, n, split, db, m, d1, skewT, eps)
 		}
 		out.labels["burst>=1200"] = true
+		if n > 16500 {
+			out.labels["burst>16500-then-replay-of-the-first"] = true
+		}
 		if validAt(p.Reqs[victim].At, now) {
 			out.labels["replay-of-newest-after-pool-shrank"] = true
 		}
@@ -112,18 +121,23 @@ func TestBurstHandshakes(t *testing.T) {
 
 var recPool = ev.New("C03", "saltpool-model",
 	"rapid: ss2022.SaltPool driven directly with caller-supplied instants: steps over {burst of n in {1,2,10,255,256,300,1023,1024,1025,1200,2000,3000} new "+
-		"salts 0/1us/10ms apart, advance (0,1ns,1s,29..31s,59s,60s-1ns,60s,60s+1ns,61s, or aimed at the expiry of the oldest live / newest / largest-burst "+
+		"salts 0/1us/10ms apart (also 16383/16384/16385/20000/70000), a flood probe (one salt, a burst of 16383..70000 more, the first one again), an uptime probe "+
+		"(first add fixes the epoch; clock to epoch+{2^31,2^32,2^33 ms,2^22 s,1 day,400 days}+-{0,1ns,1ms,500ms,30s,60s}-lead; victim; +gap; another add; victim again), advance (0,1ns,1ms,1s,11s,29..31s,59s,59.5s,60s-1ms,60s-1ns,60s,60s+1ns,61s,2^31 ms,2^32 ms,400 days, or aimed at the expiry of the oldest live / newest / largest-burst "+
 		"salt +-1ns), add one new salt, re-add or query (Contains/TryContains) the newest, second newest, newest-before-the-last-add, oldest live, a random live, "+
 		"a random expired salt}. Model: a salt is live for 60 s after it was added; Add of a live salt must return false, Add of a never-added salt true, "+
 		"Contains of a live salt true, of a never-added one false; expired salts may go either way. Non-trivial: a live salt was re-added after the pool "+
 		"held at least 1024 salts and an Add had pruned; distinct key = step classes").
-	Require("peak>=1024", "readd-live-after-prune", "readd-newest-live-after-pool-shrank-to-quarter", "readd-expired")
+	Require("peak>=1024", "readd-live-after-prune", "readd-newest-live-after-pool-shrank-to-quarter", "readd-expired",
+		"readd-live-after->16384-later-salts", "readd-live-after->65536-later-salts", "readd-live-after-2^32ms-uptime")
 
 func TestSaltPoolModel(t *testing.T) {
 	const retention = 60 * time.Second // documented salt retention (docs/FIXES.md adaf1bd, ss2022/header.go)
-	type rawOp struct{ Kind, A, B, C int }
+	type rawOp struct {
+		Kind, A, B, C int
+		T             time.Duration // kind 20: absolute target relative to the first add
+	}
 	gen := rapid.Custom(func(t *rapid.T) rawOp {
-		return rawOp{rapid.IntRange(0, 11).Draw(t, "kind"), rapid.IntRange(0, 63).Draw(t, "a"), rapid.IntRange(0, 63).Draw(t, "b"), rapid.IntRange(0, 1<<20).Draw(t, "c")}
+		return rawOp{Kind: rapid.IntRange(0, 13).Draw(t, "kind"), A: rapid.IntRange(0, 63).Draw(t, "a"), B: rapid.IntRange(0, 63).Draw(t, "b"), C: rapid.IntRange(0, 1<<20).Draw(t, "c")}
 	})
 	rapid.Check(t, func(rt *rapid.T) {
 		ops := rapid.SliceOfN(gen, 1, 30).Draw(rt, "ops")
@@ -143,14 +157,12 @@ func TestSaltPoolModel(t *testing.T) {
 			return
 		}
 		live := func(id int) bool { a, ok := addedAt[id]; return ok && now < a+retention }
+		firstLive := 0 // the clock only moves forward, so the live entries are a suffix of order
 		liveCount := func() int {
-			n := 0
-			for id := range addedAt {
-				if live(id) {
-					n++
-				}
+			for firstLive < len(order) && now >= order[firstLive].added+retention {
+				firstLive++
 			}
-			return n
+			return len(order) - firstLive
 		}
 		labels := map[string]bool{}
 		var key []byte
@@ -193,10 +205,9 @@ func TestSaltPoolModel(t *testing.T) {
 			case 2:
 				return order[max(lastAddIdx-1, 0)].id, true
 			case 3: // oldest live
-				for _, e := range order {
-					if live(e.id) && addedAt[e.id] == e.added {
-						return e.id, true
-					}
+				liveCount()
+				if firstLive < len(order) {
+					return order[firstLive].id, true
 				}
 				return order[0].id, true
 			case 4:
@@ -214,11 +225,26 @@ func TestSaltPoolModel(t *testing.T) {
 		// composite steps are expanded into primitive ones
 		var xs []rawOp
 		for _, op := range ops {
+			switch {
+			case op.Kind == 12 && op.C%4 != 0: // (floods are expensive: a quarter of the draws)
+				xs = append(xs, rawOp{Kind: 4}, rawOp{Kind: 5, A: 0})
+				continue
+			case op.Kind == 12:
+				// flood probe: one salt, then more salts than any plausible cap within the same window, then the first one again
+				xs = append(xs, rawOp{Kind: 4}, rawOp{Kind: 0, A: 12 + op.A%8, B: op.B % 2}, rawOp{Kind: 5, A: 3}, rawOp{Kind: 5, A: 4, C: op.C}, rawOp{Kind: 5, A: 0})
+				continue
+			case op.Kind == 13:
+				// uptime probe: the first add fixes the pool's epoch; epoch + W + fine - lead: victim; +gap: another add; victim again
+				lead := at([]time.Duration{time.Second, 30 * time.Second, 59 * time.Second, 0, 60 * time.Second, 11 * time.Second}, op.A)
+				xs = append(xs, rawOp{Kind: 4}, rawOp{Kind: 20, T: at(uptimeAlphabet, op.B) + at(uptimeFine, op.C) - lead}, rawOp{Kind: 4},
+					rawOp{Kind: 2, A: 11 + op.C/16%4}, rawOp{Kind: 4}, rawOp{Kind: 5, A: 2}, rawOp{Kind: 5, A: 3})
+				continue
+			}
 			if op.Kind >= 10 {
 				// shrink probe: burst; a little later a small wave; wait until the burst has just run out; one Add (prunes the pool
 				// to a fraction of its peak); re-add the newest-before-that-Add, the newest, the oldest live
-				xs = append(xs, rawOp{0, op.A % 7, op.B, 0}, rawOp{2, op.A / 7 % 4, 0, 0}, rawOp{0, 7 + op.B%5, 0, 0}, rawOp{3, 2, op.C % 5, 0}, rawOp{4, 0, 0, 0},
-					rawOp{5, 2, 0, 0}, rawOp{5, op.C / 5 % 6, 0, op.C}, rawOp{5, 3, 0, 0})
+				xs = append(xs, rawOp{Kind: 0, A: op.A % 7, B: op.B}, rawOp{Kind: 2, A: op.A / 7 % 4}, rawOp{Kind: 0, A: 7 + op.B%5}, rawOp{Kind: 3, A: 2, B: op.C % 5}, rawOp{Kind: 4},
+					rawOp{Kind: 5, A: 2}, rawOp{Kind: 5, A: op.C / 5 % 6, C: op.C}, rawOp{Kind: 5, A: 3})
 			} else {
 				xs = append(xs, op)
 			}
@@ -228,7 +254,7 @@ func TestSaltPoolModel(t *testing.T) {
 		for _, op := range xs {
 			switch {
 			case op.Kind <= 1: // burst
-				n := at([]int{1200, 1024, 300, 3000, 1025, 1023, 2000, 10, 256, 255, 2, 1}, op.A)
+				n := at([]int{1200, 1024, 300, 3000, 1025, 1023, 2000, 10, 256, 255, 2, 1, 16385, 20000, 16384, 17000, 16383, 70000, 18000, 16500}, op.A%(12+8*((op.C+op.B)%2)))
 				gap := at([]time.Duration{0, time.Microsecond, 10 * time.Millisecond}, op.B)
 				note("burst(%d, gap %v)", n, gap)
 				lc := liveCount()
@@ -252,7 +278,8 @@ func TestSaltPoolModel(t *testing.T) {
 				var d time.Duration
 				if op.Kind == 2 || len(order) == 0 {
 					d = at([]time.Duration{time.Second, 30 * time.Second, 60 * time.Second, 29 * time.Second, 31 * time.Second, 59 * time.Second, 60*time.Second - 1, 60*time.Second + 1,
-						61 * time.Second, 0, 1}, op.A)
+						61 * time.Second, 0, 1, 11 * time.Second, time.Millisecond, 60*time.Second - time.Millisecond, 59*time.Second + 500*time.Millisecond,
+						(1 << 32) * time.Millisecond, (1 << 31) * time.Millisecond, 400 * 24 * time.Hour}, op.A)
 				} else {
 					var anchor time.Duration
 					switch op.A % 3 {
@@ -277,6 +304,15 @@ func TestSaltPoolModel(t *testing.T) {
 				note("+%v", d)
 				now += d
 				key = append(key, 'A')
+			case op.Kind == 20: // advance to an absolute instant relative to the first add
+				if len(order) == 0 {
+					continue
+				}
+				if d := order[0].added + op.T - now; d > 0 {
+					note("+%v", d)
+					now += d
+				}
+				key = append(key, 'U')
 			case op.Kind == 4: // one new salt
 				before := liveCount()
 				beforeModel := len(order)
@@ -305,6 +341,22 @@ func TestSaltPoolModel(t *testing.T) {
 						id, addedAt[id], now, now-addedAt[id], liveCount(), peak)
 				case wasLive:
 					labels["readd-live"] = true
+					if later := len(order) - 1 - func() int {
+						for i := len(order) - 1; i >= 0; i-- {
+							if order[i].id == id {
+								return i
+							}
+						}
+						return 0
+					}(); later > 16384 {
+						labels["readd-live-after->16384-later-salts"] = true
+						if later > 65536 {
+							labels["readd-live-after->65536-later-salts"] = true
+						}
+					}
+					if len(order) > 0 && now-order[0].added >= (1<<32)*time.Millisecond-61*time.Second {
+						labels["readd-live-after-2^32ms-uptime"] = true
+					}
 					if pruned {
 						labels["readd-live-after-prune"] = true
 					}
